@@ -114,6 +114,7 @@ impl TpmServer1_2 {
         let mut cksum = Checksum::default();
         cksum.append(header.as_bytes());
         cksum.append(&tcg_spec_rev_bcd);
+        cksum.append((PlatformClass::Server as u16).as_bytes());
         header.checksum = cksum.value();
 
         Self {
